@@ -52,6 +52,43 @@ def run(tier):
                 found = True
             else:
                 st["broken"].append({"obligation": "correspondence c12 %s %s" % (kind, d["name"]), "replay": rep})
+                # the implementation ACCEPTS a file the model rejects: search the neighbourhood of the patched byte for
+                # a file on which it then crashes or hangs (the 8-byte index record around it rewritten as a node whose
+                # child range points back at the root / an early record) - DESIGN 2.5, focused campaign
+                if not ctx and not found and rep["signature"] == "mismatch-O-OK-vs-ERR":
+                    hit = hunt(small, work, "%s%d" % (kind, k))
+                    if hit:
+                        rep2 = dict(rep)
+                        rep2.update({"signature": "accepted-corrupt-index-then-" + hit[1], "cases": hit[0], "impl": hit[2]})
+                        res.add_violation("%s-hunt-%s" % (kind, d["name"]), rep2, True)
+                        found = True
+
+    def hunt(lines, work_, tag):
+        head = [l for l in lines if l.startswith(("T ", "F "))][:2]
+        pl = [l for l in lines if l.startswith("P ")]
+        if len(head) < 2 or not pl:
+            return None
+        pos = int(pl[0].split()[1])
+        tries = []
+        for start in (pos - 7, pos - 6, pos - 5, pos - 4):
+            if start < 0:
+                continue
+            for begin in (0, 1, 2):
+                for ln in (1, 2, 3, 8):
+                    for tail in ("0001", "0100", "2e53"):
+                        tries.append("P %d %08x%04x%s" % (start, begin, ln, tail))
+        cases_ = list(head)
+        for t in tries:
+            cases_ += [t, "O", "N", "Q S 18446744073709551615 11859", "Q F 18446744073709551615 11776"]
+        a, _b = tc.eval_lines(cases_, work_, "hunt-" + tag)
+        outs_per = 4      # O, N, Q, Q (P produces no output line; T produced the first one)
+        for i, t in enumerate(tries):
+            chunk = a[1 + i * outs_per:1 + (i + 1) * outs_per]
+            bad = [x for x in chunk if tc.BAD.search(x)]
+            if bad:
+                kind_ = "hang" if any("HANG" in x.upper() or "TIMEOUT" in x.upper() for x in bad) else "crash"
+                return (head + [t, "O", "N", "Q S 18446744073709551615 11859", "Q F 18446744073709551615 11776"], kind_, [x[:300] for x in chunk])
+        return None
 
     if st["cargo"] and st["extract"] and os.path.exists(cases):
         out = tc.run_both(cases, impl, model)
